@@ -24,6 +24,7 @@ func Minimise(orig *Plan, test func(*Plan) bool, deadline time.Time) *Plan {
 		}
 		return false
 	}
+	minimisePrelude(&cur, try)
 	for round := 0; round < 8; round++ {
 		before := planSize(cur)
 		minimiseTasks(&cur, try)
@@ -40,8 +41,53 @@ func Minimise(orig *Plan, test func(*Plan) bool, deadline time.Time) *Plan {
 	return cur
 }
 
+// minimisePrelude drops earlier runs that are not needed to reproduce.
+func minimisePrelude(cur **Plan, try func(*Plan) bool) {
+	if len((*cur).Prelude) == 0 {
+		return
+	}
+	c := (*cur).Clone()
+	c.Prelude = nil
+	if try(c) {
+		return
+	}
+	for chunk := len((*cur).Prelude); chunk >= 1; chunk /= 2 {
+		for start := 0; start < len((*cur).Prelude); {
+			c := (*cur).Clone()
+			end := start + chunk
+			if end > len(c.Prelude) {
+				end = len(c.Prelude)
+			}
+			c.Prelude = append(append([]*Plan{}, c.Prelude[:start]...), c.Prelude[end:]...)
+			if !try(c) {
+				start += chunk
+			}
+		}
+	}
+	// shrink what is left of each prelude run like a plan of its own
+	for i := range (*cur).Prelude {
+		i := i
+		s := (*cur).Prelude[i].Clone()
+		subTry := func(q *Plan) bool {
+			c := (*cur).Clone()
+			c.Prelude[i] = q
+			if try(c) {
+				s = q
+				return true
+			}
+			return false
+		}
+		minimiseTasks(&s, subTry)
+		minimiseOps(&s, subTry)
+		minimiseSchedule(&s, subTry)
+	}
+}
+
 func planSize(p *Plan) int {
 	n := 10*p.NumOps() + 3*len(p.Schedule)
+	for _, q := range p.Prelude {
+		n += 50 + planSize(q)
+	}
 	for _, t := range p.Tasks {
 		n += len(t.Text)
 		for _, s := range t.Sets {
@@ -372,12 +418,19 @@ func RaceTopFrames(log string) (string, string, bool) {
 		if strings.HasPrefix(head, "Read at") || strings.HasPrefix(head, "Write at") ||
 			strings.HasPrefix(head, "Previous read at") || strings.HasPrefix(head, "Previous write at") ||
 			strings.HasPrefix(head, "Atomic") || strings.HasPrefix(head, "Previous atomic") {
-			m := frameRe.FindStringSubmatch(s)
-			if m != nil {
-				tops = append(tops, m[1])
-			} else {
-				tops = append(tops, "?")
+			// innermost frame that is not Go runtime / standard library code
+			top := "?"
+			all := frameRe.FindAllStringSubmatch(s, -1)
+			if len(all) > 0 {
+				top = all[0][1]
 			}
+			for _, m := range all {
+				if strings.HasPrefix(m[1], modPrefix) || strings.HasPrefix(m[1], "verifsim.") {
+					top = m[1]
+					break
+				}
+			}
+			tops = append(tops, top)
 		}
 		if len(tops) == 2 {
 			break
